@@ -292,6 +292,8 @@ def gen_chain(rng, root, risky):
                     use_arrow = False
                 if use_arrow:
                     ch.c = "%s->%s" % (ch.c, n)
+                    if agg.kind == "union":
+                        ch.features.add("-> on a pointer to union")
                 seg = [agg, n]
             else:
                 ch.c = "%s.%s" % (ch.c, n)
@@ -375,8 +377,9 @@ def probe_source(items):
                 lines.append('printf("S %s %s %s %%zu %%zu\\n", sizeof(%s), _Alignof(%s));' % (
                     tagc, hid, agg.tag, ref, ref))
                 for name, m in flat_members(agg):
-                    lines.append('printf("M %s %s %s %s %%zu %%zu\\n", offsetof(%s, %s), sizeof(((%s*)0)->%s));' % (
-                        tagc, hid, agg.tag, name, ref, name, ref, name))
+                    lines.append('printf("M %s %s %s %s %%zu %%zu %%zu\\n", offsetof(%s, %s), sizeof(((%s*)0)->%s), '
+                                 '(size_t)__alignof__(((%s*)0)->%s));' % (
+                                     tagc, hid, agg.tag, name, ref, name, ref, name, ref, name))
             if not packed:
                 for ci, ch in enumerate(gen.h.chains):
                     for si, seg in enumerate(ch.segments):
@@ -410,7 +413,65 @@ def parse_probe(text):
         if p[0] == "S":
             S[(p[1], p[2], p[3])] = (int(p[4]), int(p[5]))
         elif p[0] == "M":
-            M[(p[1], p[2], p[3], p[4])] = (int(p[5]), int(p[6]))
+            M[(p[1], p[2], p[3], p[4])] = (int(p[5]), int(p[6]), int(p[7]))
         elif p[0] == "A":
             A[(p[1], int(p[2]), int(p[3]))] = (int(p[4]), int(p[5]), int(p[6]))
     return S, M, A
+
+
+# --------------------------------------------------------------------------
+# reference layout (System V rules) with switches for two known deviations
+
+def model_layout(agg, leaf, round_unions=True, inline_ref_empty=False, packed=False, cache=None):
+    """(size, align, {flat member name: offset}) of @agg.
+    @leaf(member) -> (size, align) of one element of a member that is not an aggregate by value.
+    @round_unions False: a union's size is its largest member (not rounded up to its alignment).
+    @inline_ref_empty True: a member that names (by tag) an aggregate defined inline inside
+    another aggregate is an empty struct of size 0 / alignment 1."""
+    cache = {} if cache is None else cache
+    key = id(agg)
+    if key in cache:
+        return cache[key]
+
+    def up(v, a):
+        return (v + a - 1) // a * a
+    offsets = {}
+    off, amax, smax = 0, 1, 0
+    for m in agg.members:
+        if m.base[0] == "agg" and m.ptr == 0:
+            sub = m.base[1]
+            if inline_ref_empty and m.how in ("plain",) and not sub.toplevel or \
+                    (inline_ref_empty and m.how.startswith("typedef:") and not sub.toplevel):
+                esz, eal, eoffs = 0, 1, {}
+            else:
+                esz, eal, eoffs = model_layout(sub, leaf, round_unions, inline_ref_empty, packed, cache)
+        else:
+            esz, eal = leaf(m)
+            eoffs = {}
+        n = 1
+        for d in m.dims:
+            n *= d
+        size = esz * n
+        if packed:
+            eal = 1
+        if agg.kind == "struct":
+            off = up(off, eal)
+            moff = off
+            off += size
+        else:
+            moff = 0
+            smax = max(smax, size)
+        amax = max(amax, eal)
+        if m.how == "anon":
+            for k, v in eoffs.items():
+                offsets[k] = moff + v
+        else:
+            offsets[m.name] = moff
+    if agg.kind == "struct":
+        total = off if packed else up(off, amax)
+    else:
+        total = smax if (packed or not round_unions) else up(smax, amax)
+    if packed:
+        amax = 1
+    cache[key] = (total, amax, offsets)
+    return cache[key]
